@@ -762,6 +762,40 @@ func checkFilterFeed(p *Prog, r *Report, ru *Rule) {
 		}
 		return false
 	}
+	/* And inside the filters: what they read from their reader is all of
+	it (no limiting or sectioning reader in front of the slurp). */
+	for _, fn := range p.Funcs() {
+		if nil == fn.Pkg || !strings.HasSuffix(fn.Pkg.Pkg.Path(), sffPkg) || nil != fn.Parent() {
+			continue
+		}
+		k, isF := isFilterSig(fn.Signature)
+		if !isF || nil != fn.Signature.Recv() || k >= len(fn.Params) {
+			continue
+		}
+		rp := fn.Params[k]
+		var lim ssa.Instruction
+		limName := ""
+		eachInstr(fn, func(i ssa.Instruction) {
+			c := callCommon(i)
+			if nil == c || nil != lim {
+				return
+			}
+			switch nm := calleeName(c); nm {
+			case "io.LimitReader", "io.NewSectionReader", "io.CopyN", "io.ReadFull", "io.ReadAtLeast":
+				for _, a := range c.Args {
+					if operandsReach(a, func(x ssa.Value) bool { return x == ssa.Value(rp) }) {
+						lim, limName = i, nm
+					}
+				}
+			}
+		})
+		c := fnName(fn) + ":reads-all"
+		if nil != lim {
+			ru.Bad(c, posOf(lim), "the filter reads its source through %s: a script longer than the limit is converted cut short, without an error", limName)
+		} else {
+			ru.OK(c, fn.Pos(), "nothing limits what the filter reads from its reader")
+		}
+	}
 	n := 0
 	for _, fn := range p.Funcs() {
 		if nil == fn.Pkg || !strings.HasSuffix(fn.Pkg.Pkg.Path(), sffPkg) {
